@@ -165,7 +165,8 @@ def decPrep (st : DecState) (segs : List Seg) (store : List Byte) (peek : Bool) 
     -- align offset for target data
     if peek = true then .inl (.BadOperation, (decPrev st).1)
     else
-      let post := alignPost (cursorAt segs dlen).1 (cursorAt segs dlen).2 (st.curr - dlen)
+      -- target base alignment for a new message only: an open block keeps its work area
+      let post := if st.ctx % 256 = 0 then alignPost (cursorAt segs dlen).1 (cursorAt segs dlen).2 (st.curr - dlen) else 0
       decEnter { (decPrev st).1 with pos := dlen + post } store (dlen + post) 0 (st.curr - dlen - post)
   else decEnter (decPrev st).1 store (decPrev st).2.1 (decPrev st).2.2 (st.curr - dlen)
 
